@@ -2,4 +2,4 @@ SPECIFICATION Spec
 CHECK_DEADLOCK FALSE
 ALIAS Alias
 INVARIANTS C13_LockDiscipline C13_ConsistentSnapshots C13_NoRaceReport
-  C01_ConcurrentSnapshots C05_ConcurrentSnapshots C11_ConcurrentShutdown C16_ConcurrentReload C08_ConcurrentVerdict
+  C01_ConcurrentSnapshots C05_ConcurrentSnapshots C11_ConcurrentShutdown C16_ConcurrentReload C08_ConcurrentVerdict C06_ConcurrentFifo C07_ConcurrentDelay
